@@ -283,6 +283,12 @@ func pinnedCases() []pinned {
 		out = append(out, pinned{File: "C18/nested_messages_share_component_schema_name.json", Doc: &c18Case{Property: "C18", Schema: s, Strict: true}})
 	}
 	{
+		// a string field whose examples are YAML 1.1 boolean words / number-like text
+		s, _, resp, _, _ := baseSchema("p0047")
+		resp.Fields = append(resp.Fields, &schema.Field{Name: "answer", Number: 2, Kind: schema.KString, Card: schema.Singular, Ann: &schema.Ann{Examples: []string{"no", "on", "123"}}})
+		out = append(out, pinned{File: "C18/string_examples_become_booleans_in_json.json", Doc: &c18Case{Property: "C18", Schema: s}})
+	}
+	{
 		s, _, resp, _, _ := baseSchema("p0060")
 		resp.Oneofs = []*schema.Oneof{{Name: "content", Discriminator: "kind"}}
 		resp.Fields = append(resp.Fields, &schema.Field{Name: "text", Number: 2, Kind: schema.KString, Card: schema.Singular, Oneof: "content"},
